@@ -33,6 +33,8 @@ File layout produced
         0x0100 START_NAMESPACE  prefix, uri
         0x0102 START_ELEMENT    ns, name, attributeStart=0x14, attributeSize=0x14, attributeCount, idIndex, classIndex, styleIndex,
                                 then per attribute: ns, name, rawValue, Res_value{size=8,res0=0,dataType,data}
+                                (per element: Element.attr_size > 20 pads every attribute, Element.attr_start > 20 leaves a gap
+                                before the attribute array, Element.id_index/class_index/style_index fill the three indices)
         0x0104 CDATA            data(string index), Res_value{8,0,0,0}
         0x0103 END_ELEMENT      ns, name
         0x0101 END_NAMESPACE    prefix, uri
@@ -115,6 +117,12 @@ class Element:
     nsdecls: List[Tuple[str, str]] = field(default_factory=list)
     line: int = 1
     comment: Optional[str] = None
+    # layout of this element's ResXMLTree_attrExt (aapt writes 20 / 20 / 0 / 0 / 0)
+    attr_size: int = 20        # attributeSize: bytes per attribute (>= 20; the rest is padding after each attribute)
+    attr_start: int = 20       # attributeStart: offset of the attribute array from the start of attrExt (>= 20: gap before it)
+    id_index: int = 0          # idIndex / classIndex / styleIndex: 1-based index of the id / class / style attribute, 0 = none
+    class_index: int = 0
+    style_index: int = 0
 
 
 # ----------------------------------------------------------------------------- string pool
@@ -221,11 +229,20 @@ def _node(typ: int, line: int, comment: int, body: bytes) -> bytes:
     return struct.pack("<HHIII", typ, 16, 16 + len(body), line & 0xFFFFFFFF, comment) + body
 
 
+def _filler(n: int, seed: int) -> bytes:
+    """padding bytes that do not look like zeros or like string indices"""
+    return bytes(((seed + 37 * i) & 0xFF) | 0x80 for i in range(n))
+
+
 def _emit(e: Element, pool: _Pool, out: List[bytes]):
     for prefix, uri in e.nsdecls:
         out.append(_node(RES_XML_START_NAMESPACE_TYPE, e.line, NO_ENTRY,
                          struct.pack("<II", pool.plain(prefix), pool.plain(uri))))
-    body = struct.pack("<IIHHHHHH", pool.plain(e.ns), pool.plain(e.tag), 0x14, 0x14, len(e.attrs), 0, 0, 0)
+    if e.attr_size < 20 or e.attr_start < 20:
+        raise ValueError("attributeSize and attributeStart are at least 20")
+    body = struct.pack("<IIHHHHHH", pool.plain(e.ns), pool.plain(e.tag), e.attr_start, e.attr_size, len(e.attrs),
+                       e.id_index, e.class_index, e.style_index)
+    body += _filler(e.attr_start - 20, 0x5A)
     for a in e.attrs:
         v = a.value
         if v.type == TYPE_STRING and isinstance(v.data, str):
@@ -235,6 +252,7 @@ def _emit(e: Element, pool: _Pool, out: List[bytes]):
             data = int(v.data) & 0xFFFFFFFF
             raw = pool.plain(a.raw)
         body += struct.pack("<IIIHBBI", pool.plain(a.ns), pool.attr_name(a), raw, 8, 0, v.type & 0xFF, data)
+        body += _filler(e.attr_size - 20, 0xA5)
     out.append(_node(RES_XML_START_ELEMENT_TYPE, e.line, pool.plain(e.comment), body))
     for c in e.children:
         if isinstance(c, Text):
@@ -282,4 +300,5 @@ def encode_axml(root: Element, utf8: bool = False, wide_lengths: bool = False, r
 
 def _strip_res_ids(e: Element) -> Element:
     return Element(e.tag, e.ns, [Attr(a.ns, a.name, a.value, None, a.raw) for a in e.attrs],
-                   [c if isinstance(c, Text) else _strip_res_ids(c) for c in e.children], list(e.nsdecls), e.line, e.comment)
+                   [c if isinstance(c, Text) else _strip_res_ids(c) for c in e.children], list(e.nsdecls), e.line, e.comment,
+                   e.attr_size, e.attr_start, e.id_index, e.class_index, e.style_index)
